@@ -1103,7 +1103,7 @@ theorem cs2L : CS2 cfgR netL 0 1 { s := sL3, apps := [], online := true } { s :=
       fun a ha => by simp [sL5] at ha, h.app, fun a d ha => by simp [sL5] at ha, h.scripts, by simp [sL5]⟩
   exact ⟨⟨rfl, rfl, rfl, List.Pairwise.nil, (fun o ho => by cases ho), (fun o ho => by cases ho), (fun o ho => by cases ho),
       (fun o ho => by cases ho), by decide, by decide, rfl, rfl, rfl, hinv3, rfl, rfl, rfl, rfl, rfl⟩, ⟨0, rfl⟩, rfl, rfl, rfl, by decide, by decide, by decide, ⟨rfl, rfl, hinv5, rfl, rfl, ⟨0, rfl⟩, rfl⟩,
-    by decide, rfl⟩
+    by decide, rfl, ⟨rfl, rfl⟩, rfl⟩
 
 def evsT : List (Nat × Int) := [(0, 100), (1, 150), (0, 200), (1, 250), (0, 300), (1, 350), (0, 400), (1, 450), (0, 500), (1, 550), (0, 600), (1, 650), (0, 700), (1, 750), (0, 800), (1, 850), (0, 900), (1, 950), (0, 1000), (1, 1050), (0, 1100), (1, 1150), (0, 1200), (1, 1250), (0, 1300), (1, 1350), (0, 1400), (1, 1450), (0, 1500), (1, 1550), (0, 1600), (1, 1650), (0, 1700), (1, 1750), (0, 1800), (1, 1850), (0, 1900), (1, 1950), (0, 2000), (1, 2050), (0, 2100), (1, 2150), (0, 2200), (1, 2250), (0, 2300), (1, 2350), (0, 2400), (1, 2450), (0, 2500), (1, 2550), (0, 2600), (1, 2650), (0, 2700), (1, 2750), (0, 2800), (1, 2850), (0, 2900), (1, 2950), (0, 3000), (1, 3050), (0, 3100), (1, 3150), (0, 3200), (1, 3250), (0, 3300), (1, 3350), (0, 3400), (1, 3450), (0, 3500), (1, 3550), (0, 3600), (1, 3650), (0, 3700), (1, 3750), (0, 3800), (1, 3850), (0, 3900), (1, 3950), (0, 4000), (1, 4050), (0, 4100), (1, 4150), (0, 4200), (1, 4250), (0, 4300), (1, 4350), (0, 4400), (1, 4450), (0, 4500), (1, 4550), (0, 4600), (1, 4650), (0, 4700), (1, 4750), (0, 4800), (1, 4850), (0, 4900), (1, 4950), (0, 5000), (1, 5050), (0, 5100), (1, 5150), (0, 5200), (1, 5250), (0, 5300), (1, 5350), (0, 5400), (1, 5450), (0, 5500), (1, 5550), (0, 5600), (1, 5650), (0, 5700), (1, 5750), (0, 5800), (1, 5850), (0, 5900), (1, 5950)]
 
